@@ -510,6 +510,30 @@ def run(ctx) -> None:
                 seen_js.add(key)
                 ctx.check(ok, RJ, f"{x.fn}: {f}() after stop of `{joined}`", f"`{joined}` is joined before it is told to stop on a path of {where}: the join waits for a thread that is still blocked in its loop", f"{x.fn}:{x.line}")
 
+    # ---------------------------------------------------------------- stop() itself completes: it cannot leave through a failed look-up
+    # (the wakers above are looked for on the *normal* paths of stop(); a stop() that raises half-way has skipped what comes after --
+    # for the observer: the sentinel that wakes its dispatcher)
+    RSF = ctx.rule("C06/stop-completes", "no path of BaseObserver.stop() leaves by a KeyError from a look-up in the registry maps (a map that is not a defaultdict, under a key not found in it on that path): the wake-ups that follow would be skipped and join() would wait forever", floor=1)
+    from .c07 import REGISTRY, DispatcherCfg
+
+    binit = P.find_method("BaseObserver", "__init__")
+    bstop = P.find_method("BaseObserver", "stop")
+    if binit is None or bstop is None:
+        raise AnalysisError("anchor vanished: BaseObserver.__init__ / stop")
+    total_maps = set()
+    for p in Enumerator(ThreadCfg(P, follow_attrs=False)).run(binit, selfcls="BaseObserver"):
+        for e in p.evs:
+            if e.kind == "store" and e.extra.get("target") in REGISTRY and re.match(r"(collections\.)?defaultdict\(\w", e.extra.get("value", "")):
+                total_maps.add(e.extra["target"])
+    spaths = Enumerator(DispatcherCfg(P, total_maps)).run(bstop, selfcls="BaseObserver")
+    ctx.count("stop_paths_with_fallible_lookups", len(spaths))
+    esc = [p for p in spaths if p.outcome[0] == "raise" and str(p.outcome[1]).startswith("KeyError")]
+    if esc:
+        r_ = [e for e in esc[0].flat() if e.kind == "raised"]
+        ctx.viol(RSF, "BaseObserver.stop", f"stop() can leave by KeyError at `{(r_[-1].extra.get('at', '') if r_ else '?')[:80]}` (a watch without an entry in that map, e.g. one whose emitter failed to start): the stop sentinel is never queued, the dispatcher stays in get() and join() never returns", f"{bstop.module.relpath}:{r_[-1].line if r_ else bstop.node.lineno}")
+    else:
+        ctx.ok(RSF, f"BaseObserver.stop: {len(spaths)} paths, none leaves by a failed registry look-up", bstop.loc)
+
     # ---------------------------------------------------------------- every block has a waker
     nsites = 0
     for T, rp in runs.items():
